@@ -105,12 +105,21 @@ def print_assumptions(pid):
     """{theorem: 'Closed under the global context' | axiom text}, via a generated Run file."""
     ths = theorems_of(pid)
     os.makedirs(RUN, exist_ok=True)
-    path = os.path.join(RUN, 'assum_%s%s.v' % (pid, TAG))
+    path = os.path.join(RUN, 'assum_%s%s_p%d.v' % (pid, TAG, os.getpid()))
     with open(path, 'w') as f:
         f.write('Require Import PV.Props.%s.\n' % pid)
         for t in ths:
             f.write('Print Assumptions %s.\n' % t)
     rc, out, err = coqc_file(path)
+    for ext in ('.v', '.vo', '.vok', '.vos', '.glob'):
+        try:
+            os.remove(path[:-2] + ext)
+        except OSError:
+            pass
+    try:
+        os.remove(os.path.join(RUN, '.' + os.path.basename(path)[:-2] + '.aux'))
+    except OSError:
+        pass
     res = {}
     if rc != 0:
         return None, err[-2000:]
